@@ -153,15 +153,15 @@ pub fn streams() -> Vec<Box<dyn AnyStream>> {
     vec![
         Box::new(Stream::<Case> {
             name: "spacings",
-            quick: 12_000,
-            thorough: 600_000,
+            quick: 15_000,
+            thorough: 1_000_000,
             source: Source::Gen(Box::new(strategy)),
             check: Box::new(check),
         }),
         Box::new(Stream::<SingleCase> {
             name: "single-boundary",
-            quick: 1_500,
-            thorough: 60_000,
+            quick: 2_000,
+            thorough: 100_000,
             source: Source::Gen(Box::new(strategy_single)),
             check: Box::new(check_single),
         }),
